@@ -46,6 +46,8 @@ pub const KINDS: &[&str] = &[
     "snd_fabricate",   // 39 (token-built data codeword stream)
     "fix_track",       // 40 (a whole finder/clock/alignment track or a segment of it inverted / stuck)
     "fix_pair",        // 41 (systematic: two adjacent fixed modules flipped)
+    "cw_phantom",      // 42 (errors whose first L syndromes equal those of a smaller, different error pattern)
+    "cw_syndrome",     // 43 (a crafted syndrome vector realised in the EC part: LFSR-consistent with discrepancies)
 ];
 
 pub fn kind_id(name: &str) -> u8 {
